@@ -556,7 +556,11 @@ func (u *Unit) loopEnter(st *State, from, h *ssa.BasicBlock) {
 	if st.loopSnap == nil {
 		st.loopSnap = map[int]*State{}
 	}
-	st.loopSnap[u.headers[h]] = st.clone()
+	{
+		snap := st.clone()
+		snap.snapBase = len(snap.lines)
+		st.loopSnap[u.headers[h]] = snap
+	}
 	for phi, t := range in {
 		if phi.Comment != "" {
 			t.T = phi.Type()
@@ -626,6 +630,14 @@ func (u *Unit) loopEnter(st *State, from, h *ssa.BasicBlock) {
 			st.ghost[g] = u.fresh(st, "ghost_"+g, cur.Sort, cur.T)
 		}
 	}
+	// allocations made before the loop that its body may hand out
+	{
+		var blocks []*ssa.BasicBlock
+		for b := range u.loopBlocks[h] {
+			blocks = append(blocks, b)
+		}
+		u.leaksInLoop(st, blocks)
+	}
 	// iterators advanced inside the loop
 	for r, it := range st.iters {
 		rng := r.(*ssa.Range)
@@ -662,6 +674,7 @@ func (u *Unit) loopEnter(st *State, from, h *ssa.BasicBlock) {
 		prev := st.headSnap
 		st.headSnap = nil
 		snap := st.clone()
+		snap.snapBase = len(snap.lines)
 		st.headSnap = map[int]*State{}
 		for k, v := range prev {
 			st.headSnap[k] = v
@@ -890,6 +903,8 @@ func (u *Unit) havocAll(st *State) {
 func (u *Unit) havocAllPassing(st *State, passed *ssa.MakeClosure) {
 	saved := u.savePrivateCells(st, passed)
 	defer u.restorePrivateCells(st, saved)
+	owned := u.saveOwned(st)
+	defer u.restoreOwned(st, owned)
 	st.heap = map[string]Term{}
 	st.epoch++
 	u.nfresh++
@@ -903,6 +918,8 @@ func (u *Unit) havocAllPassing(st *State, passed *ssa.MakeClosure) {
 func (u *Unit) havocAllExcept(st *State, pkgs []string) {
 	saved := u.savePrivateCells(st, nil)
 	defer u.restorePrivateCells(st, saved)
+	owned := u.saveOwned(st)
+	defer u.restoreOwned(st, owned)
 	nh := map[string]Term{}
 	for comp, t := range st.heap {
 		if pkgMatches(u.eng.compPkg[comp], pkgs) {
